@@ -6,5 +6,5 @@ if ! git apply --check "$P" 2>/dev/null; then echo "PATCH DOES NOT APPLY: $P"; e
 git apply "$P"
 trap 'git -C /repo checkout -q -- . ' EXIT
 for prop in "$@"; do
-  (cd /verif && ./check $prop 2>/dev/null | grep -E "VIOLATION|KNOWN-FINDING|CHECK-BROKEN|^\s+[A-Z][0-9A-Za-z.]+ \[|: (ok|VIOLATED)" | cut -c1-400)
+  (cd /verif && ./check $prop 2>/dev/null | grep -E "VIOLATION|KNOWN-FINDING|CHECK-BROKEN|^\s+[A-Z][0-9A-Za-z.]* \[|: (ok|VIOLATED)" | cut -c1-400)
 done
